@@ -3,6 +3,17 @@ files they depend on (a relevant item that stops translating sends the check to 
 and the correspondence campaigns (name, quick size, thorough size)."""
 
 PROPS = {
+    "C01": dict(
+        modules=["PP.Props.C01"],
+        model_files=["Poly/Evaluate", "LogPoly/Evaluate"],
+        campaigns=[("eval", 24000, 1500000), ("eval-log", 8000, 400000), ("softfloat", 8000, 400000)],
+        trusted=["hand model Hand.polyNEvaluate of PolyN::evaluate (tied by campaign eval)",
+                 "libm ln is a parameter: the Log statement is `value of the polynomial at ln v`, accuracy of ln itself is assumed (1 ulp)"],
+        assumptions=["no overflow/underflow of partial terms (the property's quantifier; the monitor checks the premise)"],
+        level_text="Theorems over an arbitrary field: each of the nine generated evaluation schemes equals sum c_i x^i (ring; scheme-independent), PolyN of any length equals sum c_i x^i by induction (empty = 0), Log<T>::evaluate is T::evaluate at ln v in every interpretation. The generated model is regenerated from poly.rs/log_poly.rs on every run and executed bit-exactly against the real code; the monitor checks the 4(n+2)u bound and exactness on representable cases on the implementation's output in exact rational arithmetic.",
+        level_note="The closed-form rounding bound is enforced by the exact-arithmetic monitor on sampled inputs (search support) and proved generically in PP/Props/C01Bound.lean once listed in modules; libm ln accuracy is assumed.",
+        explanation="exact identities by ring; bound by monitor; see DESIGN.md C01",
+    ),
     "C02": dict(
         modules=["PP.Props.C02"],
         model_files=["Piecewise/Evaluate"],
